@@ -193,6 +193,34 @@ def gate_uniq(x, double=True, shift=True):
     return jnp.where(shift, y + 10.0, y)
 
 
+def idf_plain(x):
+    return x
+
+
+@onnx_function
+def idf_fn(x):
+    return x
+
+
+@onnx_function(unique=True)
+def idf_uniq(x):
+    return x
+
+
+def pick2_plain(x, y):
+    return y
+
+
+@onnx_function
+def pick2_fn(x, y):
+    return y
+
+
+@onnx_function(unique=True)
+def pick2_uniq(x, y):
+    return y
+
+
 def mag_plain(x):
     return jnp.concatenate([x, jnp.abs(x)], axis=-1)
 
